@@ -95,8 +95,25 @@ def call_for(case: dict, st) -> Callable[[], Any]:
     d = data_n(case["n"], st)
     np = st["np"]
     e = case["entry"]
+    if case.get("np_types"):
+        # the same option values as NumPy scalars (numpy.bool_, numpy.int64, numpy.float64): the argument validation accepts them
+        def T(v):
+            if isinstance(v, bool):
+                return np.bool_(v)
+            if isinstance(v, int):
+                return np.int64(v)
+            if isinstance(v, float):
+                return np.float64(v)
+            if isinstance(v, (tuple, list)):
+                return type(v)(T(x) for x in v)
+            if isinstance(v, dict):
+                return {k: T(x) for k, x in v.items()}
+            return v
+        case = {k: (T(v) if k not in ("n", "entry", "np_types", "pre_n") else v) for k, v in case.items()}
     if e == "kk":
         num_RC = {"auto": 0, "3": 3, "2n": 2 * case["n"]}[case["num_RC"]]
+        if case.get("np_types"):
+            num_RC = np.int64(num_RC)
         return lambda: st["kk"](d, test=case["test"], admittance=case["adm"], add_capacitance=case["C"], add_inductance=case["L"], num_RC=num_RC,
                                 num_F_ext_evaluations=case["nF"], rapid_F_ext_evaluations=case["rapid"], min_log_F_ext=case["lims"][0], max_log_F_ext=case["lims"][1],
                                 num_procs=1, timeout=600)
@@ -257,6 +274,16 @@ def cases(thorough: bool) -> List[dict]:
             out.append({"entry": "fit", "n": n, "method": m, "weight": w})
         out.append({"entry": "fit", "n": n, "method": "auto", "weight": "auto"})
         out.append({"entry": "fit", "n": n, "method": ["leastsq", "powell"], "weight": "auto"})
+    # option values given as NumPy scalars
+    for test, C, L, adm in itertools.product(KK_TESTS, (False, True), (False, True), (False, True, None)):
+        if test == "cnls" and not (C and L and adm is False):
+            continue
+        out.append({"entry": "kk", "n": 12 if test != "cnls" else 8, "test": test, "num_RC": "3", "nF": 0, "adm": adm, "C": C, "L": L, "rapid": True, "lims": (-1.0, 1.0), "np_types": True})
+    out.append({"entry": "kk", "n": 12, "test": "real", "num_RC": "auto", "nF": 10, "adm": None, "C": True, "L": True, "rapid": False, "lims": (-0.5, 1.0), "np_types": True})
+    for sm, ip, adm in itertools.product(["modsinc", "savgol"], ["makima", "cubic"], (False, True)):
+        out.append({"entry": "zhit", "n": 12, "smoothing": sm, "interpolation": ip, "adm": adm, "weights": "none", "window": "boxcar", "np_order": (5, 2), "np_types": True})
+    for method, kw in (("tr-nnls", {"mode": "real", "lambda_value": 1e-3}), ("lm", {"model_order": 2}), ("bht", {"num_samples": 100, "num_attempts": 2})):
+        out.append({"entry": "drt", "n": 12, "method": method, "kw": kw, "np_types": True})
     # call sequences: the same options on a spectrum over the same range with another number of points, first
     for a, b in ((12, 21), (21, 12)):
         for sm, ip, win in itertools.product(["modsinc", "auto"], ["makima", "auto"], ["auto", "boxcar", "hann"]):
@@ -291,7 +318,7 @@ def run(ctx) -> None:
                 "{Z, Y} x weights x 4 windows x 4 (num_points, polynomial_order) pairs on 3, 5, 12 points; DRT: tr-nnls 2 modes x 3 lambda modes, lm x 2 "
                 "order methods x model_order {0, 2, n+1}, bht (2 configurations), mrq-fit (valid and invalid circuits), tr-rbf, on 1, 2, 3, 5, 12 points; "
                 "fit: 9 methods x 4 weights, auto/auto and a method list on 1, 2, 5, 12 points, and every form of the method argument (name, auto, "
-                "lists of 1-3) x every form of the weight argument (name, auto, lists of 1-3); Z-HIT / KK / DRT / fit calls made directly after "
+                "lists of 1-3) x every form of the weight argument (name, auto, lists of 1-3); option values given as NumPy scalars (numpy.bool_ / int64 / float64); Z-HIT / KK / DRT / fit calls made directly after "
                 "the same call on a spectrum over the same frequency range with another number of points (outcome must equal that of a first call). Plus an explicit-state search of the Progress counter "
                 "(enter / increment / set_message / exit on two nested contexts with totals {1,2,3,7}, register / unregister) to depth 7 (9).")
     ctx.exhaustive = True
